@@ -704,7 +704,7 @@ inline Scene gen_plain_scene(int maxw, int maxh) {
         s.m[2] = (start - 4 * (s.m[0] >> 16)) * 65536 + R(0, 65535);  // (the caller adds the request's source origin of up to 4)
         s.m[5] = R(0, 65535);
         s.filter = pickw({5, 5});
-        s.repeat = pickw({5, 0, 5, 0});  // NONE or PAD
+        s.repeat = pickw({4, 2, 4, 1});  // mostly NONE or PAD (the scanline-bounds helpers), sometimes NORMAL / REFLECT
       }
     } else if (tk == 2) {
       s.has_transform = 1;
